@@ -580,7 +580,7 @@ def _first_effects(fn, kinds=("summary", "push", "spawn")):
 
 
 def ob_wig_guards(ctx, res):
-    fn = ctx.ast.fn(WW, "process_val")
+    fn = ctx.ast.fn(WW, "process_val", inline=True, keep=("encode_section",))
     cur, nxt, clen = fn.params[0][0], fn.params[1][0], fn.params[2][0]
 
     def role(term, node):
@@ -614,7 +614,7 @@ def ob_wig_guards(ctx, res):
 
 
 def ob_bed_guards(ctx, res):
-    fn = ctx.ast.fn(BW, "process_val")
+    fn = ctx.ast.fn(BW, "process_val", inline=True, keep=("encode_section",))
 
     def role(term, node):
         o = origin(fn, strip_cast(node))
@@ -707,11 +707,11 @@ def _flush(ctx, res, fn, what):
 
 
 def ob_wig_flush(ctx, res):
-    _flush(ctx, res, ctx.ast.fn(WW, "process_val"), "wigFlush")
+    _flush(ctx, res, ctx.ast.fn(WW, "process_val", inline=True, keep=("encode_section",)), "wigFlush")
 
 
 def ob_bed_flush(ctx, res):
-    _flush(ctx, res, ctx.ast.fn(BW, "process_val"), "bedFlush")
+    _flush(ctx, res, ctx.ast.fn(BW, "process_val", inline=True, keep=("encode_section",)), "bedFlush")
 
 
 def ob_reader_writer_contradiction(ctx, res):
@@ -752,7 +752,7 @@ def ob_reader_writer_contradiction(ctx, res):
         res.fail("contradiction/not-cmp", n, str(e))
         return
     # writer accepts: start <= end, start < L, and all values >= 0 (u32)
-    wr = ctx.ast.fn(BW, "process_val")
+    wr = ctx.ast.fn(BW, "process_val", inline=True, keep=("encode_section",))
     roles = ["es", "ee", "zero", "L"]
     side = lambda v: v["zero"] <= v["es"] <= v["ee"] and v["es"] < v["L"] and v["zero"] <= v["L"]
     rows, cex, err = check_table(p, role, roles, side, lambda v: False, "implies")
